@@ -622,6 +622,7 @@ func (s *sim) probes() {
 	s.emit("probe %d", s.top)
 	s.emit("spec probe %d", s.top)
 	s.emit("inv %d", s.top)
+	s.emit("refcheck")
 	nDet := 3
 	if s.opts.heavy {
 		nDet = len(s.u.txs)
@@ -923,6 +924,16 @@ func generate(rng *rand.Rand, tier string) []core.Case {
 	}
 	if tier == "thorough" {
 		cases = append(cases, exhaustive()...)
+	}
+	// random consistent histories generated inside the Lean driver: refinement relation, ledger well-formedness,
+	// store invariants and equality of every observable after every event (the Go side has nothing to add)
+	nFuzz, perCase := 10, 200
+	if tier == "thorough" {
+		nFuzz, perCase = 40, 500
+	}
+	for i := 0; i < nFuzz; i++ {
+		cases = append(cases, core.Case{Ops: []string{fmt.Sprintf("reffuzz %d %d %d 1", rng.Intn(1<<30), perCase, 30+rng.Intn(50))},
+			Tags: []string{"reffuzz"}})
 	}
 	return cases
 }
